@@ -6,11 +6,15 @@ package c04
 
 import (
 	"bytes"
+	_ "embed"
+	"encoding/json"
 	"fmt"
 	"math/big"
 	"sort"
 	"strings"
+	"sync"
 
+	"github.com/nspcc-dev/neo-go/pkg/compiler"
 	"github.com/nspcc-dev/neo-go/pkg/core/interop"
 	"github.com/nspcc-dev/neo-go/pkg/core/native/nativehashes"
 	"github.com/nspcc-dev/neo-go/pkg/core/native/nativeids"
@@ -19,7 +23,9 @@ import (
 	"github.com/nspcc-dev/neo-go/pkg/core/transaction"
 	"github.com/nspcc-dev/neo-go/pkg/encoding/bigint"
 	"github.com/nspcc-dev/neo-go/pkg/neotest"
+	"github.com/nspcc-dev/neo-go/pkg/smartcontract"
 	"github.com/nspcc-dev/neo-go/pkg/smartcontract/callflag"
+	"github.com/nspcc-dev/neo-go/pkg/smartcontract/manifest"
 	"github.com/nspcc-dev/neo-go/pkg/smartcontract/trigger"
 	"github.com/nspcc-dev/neo-go/pkg/util"
 	"github.com/nspcc-dev/neo-go/pkg/vm/stackitem"
@@ -28,6 +34,48 @@ import (
 )
 
 const gasUnit = 100000000
+
+//go:embed v.go.txt
+var vSource []byte
+
+const opIter = 14 // op of the extended universal contract (v.go.txt)
+
+var (
+	vOnce sync.Once
+	vBase *neotest.Contract
+	vErr  error
+)
+
+// compileV returns the extended universal contract (U + iterator op) as
+// instance "UC" deployed by account 2.
+func compileV() (*neotest.Contract, error) {
+	vOnce.Do(func() {
+		vBase, vErr = chainx.CompileSource(vSource, &compiler.Options{
+			Name:               "V",
+			NoEventsCheck:      true,
+			NoPermissionsCheck: true,
+			NoStandardCheck:    true,
+			SafeMethods:        []string{"runSafe"},
+			ContractEvents: []compiler.HybridEvent{{Name: "ev", Parameters: []compiler.HybridParameter{
+				{Parameter: manifest.Parameter{Name: "n", Type: smartcontract.AnyType}},
+			}}},
+			Permissions: []manifest.Permission{*manifest.NewPermission(manifest.PermissionWildcard)},
+		})
+	})
+	if vErr != nil {
+		return nil, fmt.Errorf("compile V: %w", vErr)
+	}
+	mb, err := json.Marshal(vBase.Manifest)
+	if err != nil {
+		return nil, err
+	}
+	m := new(manifest.Manifest)
+	if err := json.Unmarshal(mb, m); err != nil {
+		return nil, err
+	}
+	m.Name = "UC"
+	return &neotest.Contract{Hash: state.CreateContractHash(chainx.Acc(2).ScriptHash(), vBase.NEF.Checksum, m.Name), NEF: vBase.NEF, Manifest: m, DebugInfo: vBase.DebugInfo}, nil
+}
 
 type world struct {
 	multi             bool
@@ -52,7 +100,10 @@ func buildWorld(multi bool, pad int) (*world, error) {
 		return nil, err
 	}
 	w := &world{multi: multi, cw: cw}
-	// setup block 1: the third instance
+	// setup block 1: the third instance (the extended universal contract: U + iterator op)
+	if cw.UC, err = compileV(); err != nil {
+		return nil, err
+	}
 	dep, err := n.DeployTx(cw.UC, chainx.Signer(2), nil)
 	if err != nil {
 		return nil, err
@@ -210,6 +261,9 @@ func (w *world) readState(g getter) (*State, error) {
 	s.Fee = bigint.FromBytes(g.get(nativeids.PolicyContract, []byte{10})).Int64()
 	s.Blocked = g.get(nativeids.PolicyContract, append([]byte{15}, chainx.Acc(5).ScriptHash().BytesBE()...)) != nil
 	s.Deployed = g.get(nativeids.ContractManagement, append([]byte{8}, w.ud.BytesBE()...)) != nil
+	for i := range s.Destroyed {
+		s.Destroyed[i] = g.get(nativeids.ContractManagement, append([]byte{8}, w.hashes[i].BytesBE()...)) == nil
+	}
 	return s, nil
 }
 
@@ -285,6 +339,10 @@ func (w *world) toU(ops []Op) []any {
 			out = append(out, []any{chainx.OpCall, pol, "unblockAccount", 15, []any{chainx.Acc(5).ScriptHash().BytesBE()}})
 		case 'Y':
 			out = append(out, []any{chainx.OpCall, nativehashes.ContractManagement.BytesBE(), "deploy", 15, []any{w.udNEF, w.udManifest, nil}})
+		case 'Z':
+			out = append(out, []any{chainx.OpCall, nativehashes.ContractManagement.BytesBE(), "destroy", 15, []any{}})
+		case 'I':
+			out = append(out, []any{opIter, w.toU(o.Body)})
 		case 'r':
 			out = append(out, []any{chainx.OpRun, w.hashes[o.To].BytesBE(), o.Flags, w.bind(w.toU(o.Body), o.To)})
 		case 'T':
@@ -312,12 +370,17 @@ func (w *world) bind(prog []any, inst int) []any {
 		case chainx.OpTry:
 			w.bind(op[1].([]any), inst)
 			w.bind(op[2].([]any), inst)
+		case opIter:
+			w.bind(op[1].([]any), inst)
 		}
 	}
 	return prog
 }
 
 func (w *world) script(ops []Op) []byte {
+	if isHand(ops) {
+		return w.handScript(ops[0].Body)
+	}
 	prog := w.bind(w.toU(ops), pA)
 	if hasOp(ops, 'F') {
 		prog = append(prog, []any{chainx.OpCall, nativehashes.PolicyContract.BytesBE(), "getFeePerByte", 15, []any{}})
@@ -544,6 +607,9 @@ func compare(m *Result, r *real) (what []string, detail []string) {
 	}
 	if m.State.Blocked != r.State.Blocked {
 		add("policy-blocked", fmt.Sprintf("model %v real %v", m.State.Blocked, r.State.Blocked))
+	}
+	if m.State.Destroyed != r.State.Destroyed {
+		add("destroyed", fmt.Sprintf("model %v real %v", m.State.Destroyed, r.State.Destroyed))
 	}
 	if m.State.Deployed != r.State.Deployed {
 		add("deployed", fmt.Sprintf("model %v real %v", m.State.Deployed, r.State.Deployed))
